@@ -81,3 +81,16 @@ Theorem C08_image_replay_from_mark_refuted :
   rm_summary = Some ((VOk, 1, 2), (VOk, 0, 2), (1, 0, true)).
 Proof. exact image_replay_from_mark_refuted. Qed.
 Print Assumptions C08_image_replay_from_mark_refuted.
+
+(* a second backup is refused in every stage of a running one (fixed in /repo f1d2ea9: the error code used to be
+   overwritten and both calls ran on the same stage variable); an accepted call only sets the stage *)
+Theorem C08_backup_refused_while_running : forall s,
+  (p_stage s <> 0 -> backup_start s = None) /\
+  (p_stage s = 0 -> backup_start s = Some (set_stage s BKP_STARTED)) /\
+  (forall st, In st [BKP_STARTED; BKP_WAL_CLEANUP; BKP_MAIN_COPY; BKP_WAL_COPY1; BKP_WAL_COPY2] -> backup_start (set_stage s st) = None).
+Proof. exact backup_refused_while_running. Qed.
+Print Assumptions C08_backup_refused_while_running.
+Example C08_backup_refused_while_running_ex :
+  backup_start rm_s0 <> None /\ backup_start (set_stage rm_s0 BKP_MAIN_COPY) = None /\
+  p_stage (snd (backup_run rm_cfg rm_s0 5 9 [] rm_evA)) = 0.
+Proof. vm_compute. repeat split; try reflexivity. discriminate. Qed.
